@@ -500,6 +500,12 @@ def run_c07(ctx, rng, job):
                 ctx.op('registry_bases', i, idx)
                 w.regs[i].__bases__ = tuple(w.regs[j] for j in idx)
                 ctx.count('registry_rebasings_between_queries')
+        if rng.random() < 0.06:
+            # rebuild(): the registry re-initialises itself in place from its own listings
+            rb = rng.randrange(len(w.regs))
+            ctx.op('rebuild', rb)
+            w.regs[rb].rebuild()
+            ctx.count('rebuilds_between_queries')
         if rng.random() < 0.25:
             # adapters live in the same registries and share the per-interface bookkeeping with the subscribers
             # (reference counts of provided interfaces, extendor lists): register / overwrite / unregister them too
@@ -1393,7 +1399,12 @@ def run_c06(ctx, rng, job):
             w.subscribe(ri, req, rng.choice([prov, None]), w.newval())
             kinds.append('subscribe')
             tag = 'subscribe in %d' % ri
-        check(tag)
+        # (not after every step: several changes may pile up before any registry is asked again)
+        if rng.random() < 0.7:
+            check(tag)
+        else:
+            ctx.count('steps_without_probes')
+    check('final')
     _components_chain(ctx, rng, w)
     ctx.shape(('c06', w.flavour, tuple(kinds), tuple(tuple(w.index_of(b) for b in r.__bases__) for r in w.regs)),
               nontrivial=getattr(w, 'nontrivial', False))
